@@ -1,13 +1,1376 @@
 //go:build verif
 
-// placeholder: harness c17 is being written
+// Harness c17: keyset derivation (property C17). Deriver keysets of 1..5 PRF-based deriver keys over
+// every derivable key type × variant × status × primary choice × PRF hash / salt / key size are
+// built (internal AddKeyWithOpts, the public manager API, key templates, parameters), then
+// keyderivation.New(handle).DeriveKeyset(salt) is run for salts empty / short / 1 KiB.
+//
+//	!V derive <entries>                              structure of the derived handle vs the manager model
+//	!V material <hash> <prfKey> <prfSalt> <salt> <n>  key bytes of every derived key vs RFC 5869 over the reference hash
+//
+// Directly on the implementation (o.Violate): one ENABLED key per ENABLED deriver key, in order,
+// same id / primary / parameters (variant) / output prefix; derived key Equal to an ordinary key
+// built from the same bytes; two derivations Equal; other salt, PRF key, PRF salt or PRF hash gives
+// other keys (and leaves the other entries' keys alone); the keyset re-read from its serialization
+// derives the same; every derived key works through the public primitive factories.
+// A keyset.Config handing the factory doctored key derivers reaches the factory's error paths (id
+// requirement of the derived key ≠ key id) and its legacy-primitive wrapper.
 package main
 
-import "github.com/tink-crypto/tink-go/v2/internal/verifharness/hlib"
+import (
+	"bytes"
+	"fmt"
+	"strings"
+
+	"github.com/tink-crypto/tink-go/v2/aead"
+	"github.com/tink-crypto/tink-go/v2/daead"
+	"github.com/tink-crypto/tink-go/v2/insecurecleartextkeyset"
+	"github.com/tink-crypto/tink-go/v2/internal/internalapi"
+	"github.com/tink-crypto/tink-go/v2/internal/protoserialization"
+	"github.com/tink-crypto/tink-go/v2/internal/registryconfig/legacyprimitive"
+	"github.com/tink-crypto/tink-go/v2/internal/verifharness/hlib"
+	"github.com/tink-crypto/tink-go/v2/key"
+	"github.com/tink-crypto/tink-go/v2/keyderivation"
+	"github.com/tink-crypto/tink-go/v2/keyderivation/prfbasedkeyderivation"
+	"github.com/tink-crypto/tink-go/v2/keyset"
+	"github.com/tink-crypto/tink-go/v2/mac"
+	"github.com/tink-crypto/tink-go/v2/prf"
+	"github.com/tink-crypto/tink-go/v2/prf/aescmacprf"
+	"github.com/tink-crypto/tink-go/v2/prf/hkdfprf"
+	"github.com/tink-crypto/tink-go/v2/prf/hmacprf"
+	tinkpb "github.com/tink-crypto/tink-go/v2/proto/tink_go_proto"
+	"github.com/tink-crypto/tink-go/v2/signature"
+	"github.com/tink-crypto/tink-go/v2/streamingaead"
+)
+
+var itok = internalapi.Token{}
+
+type world struct {
+	o   *hlib.Out
+	rng *hlib.Rng
+}
+
+func statusCode(s keyset.KeyStatus) string {
+	switch s {
+	case keyset.Enabled:
+		return "E"
+	case keyset.Disabled:
+		return "D"
+	case keyset.Destroyed:
+		return "X"
+	}
+	return "U"
+}
+
+// ---------- deriver keys and keysets ----------
+
+// plan: what the generator wants one deriver keyset entry to be.
+type plan struct {
+	spec    dspec
+	prfHash int // index into hashNames
+	prfKey  []byte
+	prfSalt []byte
+	id      uint32
+	status  keyset.KeyStatus
+	primary bool
+}
+
+// ent: one entry of a deriver keyset as read back from the handle.
+type ent struct {
+	id      uint32
+	status  keyset.KeyStatus
+	primary bool
+	dk      *prfbasedkeyderivation.Key
+	dparams key.Parameters
+	spec    dspec
+	hasID   bool
+	prfHash int
+	prfKey  []byte
+	prfSalt []byte
+}
+
+func mkPRFKey(hash int, kb, salt []byte) (*hkdfprf.Key, error) {
+	ps, err := hkdfprf.NewParameters(len(kb), hkdfprf.HashType(hash+1), salt)
+	if err != nil {
+		return nil, err
+	}
+	return hkdfprf.NewKey(hlib.Secret(kb), ps)
+}
+
+func mkDeriverParams(p plan) (*prfbasedkeyderivation.Parameters, error) {
+	ps, err := hkdfprf.NewParameters(len(p.prfKey), hkdfprf.HashType(p.prfHash+1), p.prfSalt)
+	if err != nil {
+		return nil, err
+	}
+	dp, err := p.spec.params()
+	if err != nil {
+		return nil, err
+	}
+	return prfbasedkeyderivation.NewParameters(ps, dp)
+}
+
+func mkDeriverKey(p plan) (*prfbasedkeyderivation.Key, error) {
+	pk, err := mkPRFKey(p.prfHash, p.prfKey, p.prfSalt)
+	if err != nil {
+		return nil, err
+	}
+	pp, err := mkDeriverParams(p)
+	if err != nil {
+		return nil, err
+	}
+	id := p.id
+	if !pp.HasIDRequirement() {
+		id = 0
+	}
+	return prfbasedkeyderivation.NewKey(pp, pk, id)
+}
+
+// view reads the deriver keyset back through the handle's public API.
+func view(h *keyset.Handle) []ent {
+	es := make([]ent, h.Len())
+	for i := range es {
+		e, err := h.Entry(i)
+		if err != nil {
+			panic(err)
+		}
+		dk, ok := e.Key().(*prfbasedkeyderivation.Key)
+		if !ok {
+			panic(fmt.Sprintf("deriver keyset entry of type %T", e.Key()))
+		}
+		pp := dk.Parameters().(*prfbasedkeyderivation.Parameters)
+		pk, ok := dk.PRFKey().(*hkdfprf.Key)
+		if !ok {
+			panic(fmt.Sprintf("PRF key of type %T", dk.PRFKey()))
+		}
+		pps := pk.Parameters().(*hkdfprf.Parameters)
+		spec, ok := specOf(pp.DerivedKeyParameters())
+		if !ok {
+			panic(fmt.Sprintf("derived parameters of type %T", pp.DerivedKeyParameters()))
+		}
+		_, has := dk.IDRequirement()
+		es[i] = ent{id: e.KeyID(), status: e.KeyStatus(), primary: e.IsPrimary(), dk: dk, dparams: pp.DerivedKeyParameters(),
+			spec: spec, hasID: has, prfHash: int(pps.HashType()) - 1, prfKey: pk.KeyBytes().Data(stok), prfSalt: pps.Salt()}
+	}
+	return es
+}
+
+func plansOf(es []ent) []plan {
+	ps := make([]plan, len(es))
+	for i, e := range es {
+		ps[i] = plan{spec: e.spec, prfHash: e.prfHash, prfKey: e.prfKey, prfSalt: e.prfSalt, id: e.id, status: e.status, primary: e.primary}
+	}
+	return ps
+}
+
+// buildOpts assembles the keyset with the internal AddKeyWithOpts: every id, status (DESTROYED
+// included) and primary position is reachable.
+func buildOpts(ps []plan) (*keyset.Handle, error) {
+	km := keyset.NewManager()
+	for _, p := range ps {
+		dk, err := mkDeriverKey(p)
+		if err != nil {
+			return nil, err
+		}
+		opts := []keyset.KeyOpts{keyset.WithFixedID(p.id)}
+		if p.primary {
+			opts = append(opts, keyset.AsPrimary())
+		} else {
+			opts = append(opts, keyset.WithStatus(p.status))
+		}
+		if _, err := km.AddKeyWithOpts(dk, itok, opts...); err != nil {
+			return nil, err
+		}
+	}
+	return km.Handle()
+}
+
+// finish applies primary / status through the public manager API (DESTROYED is not reachable: DISABLED).
+func finish(km *keyset.Manager, ids []uint32, ps []plan) (*keyset.Handle, error) {
+	for i, p := range ps {
+		if p.primary {
+			if err := km.SetPrimary(ids[i]); err != nil {
+				return nil, err
+			}
+		}
+	}
+	for i, p := range ps {
+		if !p.primary && p.status != keyset.Enabled {
+			if err := km.Disable(ids[i]); err != nil {
+				return nil, err
+			}
+		}
+	}
+	return km.Handle()
+}
+
+// buildPublic: keys made by the harness, added with the public AddKey (random ids for the keys
+// without id requirement — drawn from the deterministic tape).
+func buildPublic(ps []plan) (*keyset.Handle, error) {
+	km := keyset.NewManager()
+	ids := make([]uint32, len(ps))
+	for i, p := range ps {
+		dk, err := mkDeriverKey(p)
+		if err != nil {
+			return nil, err
+		}
+		id, err := km.AddKey(dk)
+		if err != nil {
+			return nil, err
+		}
+		ids[i] = id
+	}
+	return finish(km, ids, ps)
+}
+
+// buildParams: keys generated by the library from prfbasedkeyderivation.Parameters.
+func buildParams(ps []plan) (*keyset.Handle, error) {
+	km := keyset.NewManager()
+	ids := make([]uint32, len(ps))
+	for i, p := range ps {
+		pp, err := mkDeriverParams(p)
+		if err != nil {
+			return nil, err
+		}
+		id, err := km.AddNewKeyFromParameters(pp)
+		if err != nil {
+			return nil, err
+		}
+		ids[i] = id
+	}
+	return finish(km, ids, ps)
+}
+
+var namedDerived = []func() *tinkpb.KeyTemplate{
+	aead.AES128GCMKeyTemplate, aead.AES256GCMKeyTemplate, aead.AES256GCMNoPrefixKeyTemplate, aead.XChaCha20Poly1305KeyTemplate,
+	daead.AESSIVKeyTemplate,
+	mac.HMACSHA256Tag128KeyTemplate, mac.HMACSHA256Tag256KeyTemplate, mac.HMACSHA512Tag256KeyTemplate, mac.HMACSHA512Tag512KeyTemplate,
+	prf.HKDFSHA256PRFKeyTemplate, prf.HMACSHA256PRFKeyTemplate, prf.HMACSHA512PRFKeyTemplate,
+	signature.ED25519KeyTemplate,
+	streamingaead.AES128GCMHKDF4KBKeyTemplate, streamingaead.AES128GCMHKDF1MBKeyTemplate, streamingaead.AES256GCMHKDF4KBKeyTemplate, streamingaead.AES256GCMHKDF1MBKeyTemplate,
+}
+
+func (w *world) templateOf(p plan) (*tinkpb.KeyTemplate, error) {
+	var prfT, derT *tinkpb.KeyTemplate
+	if w.rng.Chance(40) {
+		prfT = prf.HKDFSHA256PRFKeyTemplate()
+	} else {
+		ps, err := hkdfprf.NewParameters(len(p.prfKey), hkdfprf.HashType(p.prfHash+1), p.prfSalt)
+		if err != nil {
+			return nil, err
+		}
+		if prfT, err = protoserialization.SerializeParameters(ps); err != nil {
+			return nil, err
+		}
+	}
+	if w.rng.Chance(50) {
+		derT = namedDerived[w.rng.Intn(len(namedDerived))]()
+	} else {
+		dp, err := p.spec.params()
+		if err != nil {
+			return nil, err
+		}
+		if derT, err = protoserialization.SerializeParameters(dp); err != nil {
+			return nil, err
+		}
+	}
+	return keyderivation.CreatePRFBasedKeyTemplate(prfT, derT)
+}
+
+// buildTemplates: keyset.NewHandle(template) for one key, Manager.Add(template) otherwise.
+func (w *world) buildTemplates(ps []plan) (*keyset.Handle, error) {
+	if len(ps) == 1 {
+		t, err := w.templateOf(ps[0])
+		if err != nil {
+			return nil, err
+		}
+		return keyset.NewHandle(t)
+	}
+	km := keyset.NewManager()
+	ids := make([]uint32, len(ps))
+	for i, p := range ps {
+		t, err := w.templateOf(p)
+		if err != nil {
+			return nil, err
+		}
+		id, err := km.Add(t)
+		if err != nil {
+			return nil, err
+		}
+		ids[i] = id
+	}
+	return finish(km, ids, ps)
+}
+
+// ---------- generation ----------
+
+func (w *world) prfMaterial() (hash int, kb, salt []byte, class string) {
+	rng := w.rng
+	hash = rng.Pick(2, 4)
+	ksz := rng.Pick(32, 48, 64, 32, 64, 33+rng.Intn(96))
+	kb = rng.Bytes(ksz)
+	switch rng.Intn(5) {
+	case 0:
+		salt, class = nil, "salt0"
+	case 1:
+		salt, class = rng.Bytes(16), "salt16"
+	case 2:
+		salt, class = rng.Bytes(64), "salt64"
+	case 3:
+		salt, class = rng.Bytes(hashLens[hash]), "saltHashLen"
+	default:
+		salt, class = rng.Bytes(1+rng.Intn(200)), "saltOther"
+	}
+	kc := "other"
+	if ksz == 32 || ksz == 48 || ksz == 64 {
+		kc = fmt.Sprint(ksz)
+	}
+	return hash, kb, salt, hashNames[hash] + "/key" + kc + "/" + class
+}
+
+func (w *world) plans(nk int) []plan {
+	rng := w.rng
+	ps := make([]plan, nk)
+	used := map[uint32]bool{}
+	prim := rng.Intn(nk)
+	var fam string
+	homogeneous := rng.Chance(35) // all keys of one primitive family: the derived keyset works as a whole
+	for i := range ps {
+		p := &ps[i]
+		for {
+			p.spec = randSpec(rng)
+			if !homogeneous || i == 0 || (p.spec.family() == fam && p.spec.std()) {
+				break
+			}
+		}
+		if i == 0 {
+			fam = p.spec.family()
+			if homogeneous && !p.spec.std() {
+				homogeneous = false
+			}
+		}
+		var cls string
+		p.prfHash, p.prfKey, p.prfSalt, cls = w.prfMaterial()
+		w.o.Count("prf/" + cls)
+		if i > 0 && rng.Chance(12) { // the same PRF key under two entries
+			q := ps[rng.Intn(i)]
+			p.prfHash, p.prfKey, p.prfSalt = q.prfHash, q.prfKey, q.prfSalt
+			w.o.Count("prf/shared-between-entries")
+		}
+		id := rng.KeyID()
+		for used[id] {
+			id++
+		}
+		used[id] = true
+		p.id = id
+		p.primary = i == prim
+		p.status = keyset.Enabled
+		if !p.primary {
+			switch r := rng.Intn(100); {
+			case r < 25:
+				p.status = keyset.Disabled
+			case r < 40:
+				p.status = keyset.Destroyed
+			}
+		}
+	}
+	return ps
+}
+
+func (w *world) salts() ([][]byte, []string) {
+	rng := w.rng
+	one := func() ([]byte, string) {
+		switch rng.Intn(8) {
+		case 0:
+			return nil, "nil"
+		case 1:
+			return []byte{}, "empty"
+		case 2, 3:
+			return rng.Bytes(1 + rng.Intn(40)), "short"
+		case 4:
+			return rng.Bytes(41 + rng.Intn(260)), "medium"
+		case 5, 6:
+			return rng.Bytes(1024), "1KiB"
+		}
+		return rng.Bytes(1025 + rng.Intn(3072)), "over1KiB"
+	}
+	var ss [][]byte
+	var cs []string
+	for i := 0; i < 2; i++ {
+		s, c := one()
+		ss, cs = append(ss, s), append(cs, c)
+	}
+	// a third salt close to the first one: one bit, one more / one fewer byte, nil vs empty
+	s0 := ss[0]
+	var s []byte
+	c := "near"
+	switch {
+	case len(s0) == 0 && rng.Bool():
+		if s0 == nil {
+			s = []byte{}
+		} else {
+			s = nil
+		}
+		c = "nil-vs-empty"
+	case len(s0) == 0:
+		s = []byte{0}
+	default:
+		s = append([]byte(nil), s0...)
+		switch rng.Intn(3) {
+		case 0:
+			s[rng.Intn(len(s))] ^= 1 << uint(rng.Intn(8))
+		case 1:
+			s = append(s, 0)
+		default:
+			s = s[:len(s)-1]
+		}
+	}
+	return append(ss, s), append(cs, c)
+}
+
+// ---------- dumps ----------
+
+type deriver interface {
+	DeriveKey(salt []byte) (key.Key, error)
+}
+
+// entriesTok prints the deriver keyset for the model: id:S:p:idReq:key.
+func entriesTok(es []ent, idReq []string) string {
+	ss := make([]string, len(es))
+	for i, e := range es {
+		ss[i] = fmt.Sprintf("%d:%s:%s:%s:%d", e.id, statusCode(e.status), hlib.B01(e.primary), idReq[i], i)
+	}
+	return strings.Join(ss, ";")
+}
+
+func naturalIDReq(es []ent) []string {
+	r := make([]string, len(es))
+	for i, e := range es {
+		r[i] = "-"
+		if e.hasID {
+			idr, _ := e.dk.IDRequirement()
+			r[i] = fmt.Sprint(idr)
+		}
+	}
+	return r
+}
+
+func enabledIdx(es []ent) []int {
+	var ix []int
+	for i, e := range es {
+		if e.status == keyset.Enabled {
+			ix = append(ix, i)
+		}
+	}
+	return ix
+}
+
+// dumpDerived prints the derived handle (public API) in Driver.Mgr.showEntries format. A derived
+// key is named after the deriver entry whose own key deriver yields it (singles[i], derived one
+// key at a time outside the factory); 999 if no entry does.
+func dumpDerived(dh *keyset.Handle, es []ent, singles []key.Key) string {
+	if dh.Len() == 0 {
+		return "-"
+	}
+	en := enabledIdx(es)
+	ss := make([]string, dh.Len())
+	for j := range ss {
+		e, err := dh.Entry(j)
+		if err != nil {
+			panic(err)
+		}
+		name := 999
+		if j < len(en) && singles[en[j]] != nil && singles[en[j]].Equal(e.Key()) {
+			name = en[j]
+		} else {
+			for _, i := range en {
+				if singles[i] != nil && singles[i].Equal(e.Key()) {
+					name = i
+					break
+				}
+			}
+		}
+		ss[j] = fmt.Sprintf("%d:%s:%s:%d", e.KeyID(), statusCode(e.KeyStatus()), hlib.B01(e.IsPrimary()), name)
+	}
+	return strings.Join(ss, ";")
+}
+
+func handleEqual(a, b *keyset.Handle) bool {
+	if a.Len() != b.Len() {
+		return false
+	}
+	for i := 0; i < a.Len(); i++ {
+		x, err1 := a.Entry(i)
+		y, err2 := b.Entry(i)
+		if err1 != nil || err2 != nil {
+			return false
+		}
+		if x.KeyID() != y.KeyID() || x.KeyStatus() != y.KeyStatus() || x.IsPrimary() != y.IsPrimary() || !x.Key().Equal(y.Key()) || !y.Key().Equal(x.Key()) {
+			return false
+		}
+	}
+	return true
+}
+
+func keysOf(h *keyset.Handle) []key.Key {
+	ks := make([]key.Key, h.Len())
+	for i := range ks {
+		e, err := h.Entry(i)
+		if err != nil {
+			panic(err)
+		}
+		ks[i] = e.Key()
+	}
+	return ks
+}
+
+// ---------- the checks on one derivation ----------
+
+// singlesOf derives, outside the keyset factory, the key of every ENABLED entry on its own.
+func singlesOf(es []ent, salt []byte) []key.Key {
+	out := make([]key.Key, len(es))
+	for i, e := range es {
+		if e.status != keyset.Enabled {
+			continue
+		}
+		d, err := prfbasedkeyderivation.NewKeyDeriver(e.dk, itok)
+		if err != nil {
+			continue
+		}
+		k, err := d.DeriveKey(salt)
+		if err == nil {
+			out[i] = k
+		}
+	}
+	return out
+}
+
+// materialLine emits the reference line for one derived key.
+func (w *world) materialLine(e ent, salt []byte, k key.Key, what string) []byte {
+	kb, ok := keyBytesOf(k)
+	if !ok {
+		w.o.Violate("%s: derived key of unexpected type %T", what, k)
+		return nil
+	}
+	need := e.spec.need()
+	if len(kb) != need {
+		w.o.Violate("%s: derived %s key has %d key bytes, its rule takes %d", what, e.spec.label(), len(kb), need)
+	}
+	w.o.Emit(fmt.Sprintf("!V material %s %s %s %s %d", hashNames[e.prfHash], hlib.Tok(e.prfKey), hlib.Tok(e.prfSalt), hlib.Tok(salt), need), hlib.Tok(kb), true)
+	return kb
+}
+
+// derive runs DeriveKeyset on a well-formed deriver keyset and checks everything about the result.
+// Returns the derived handle (nil on failure).
+func (w *world) derive(kd keyderivation.KeysetDeriver, h *keyset.Handle, es []ent, salt []byte, what string) *keyset.Handle {
+	o := w.o
+	keep := append([]byte(nil), salt...)
+	dh, err := kd.DeriveKeyset(salt)
+	if !bytes.Equal(keep, salt) {
+		o.Violate("%s: DeriveKeyset modified the caller's salt", what)
+	}
+	line := "!V derive " + entriesTok(es, naturalIDReq(es))
+	if err != nil {
+		o.Emit(line, "err", true)
+		o.Violate("%s: DeriveKeyset failed on a well-formed deriver keyset: %v", what, err)
+		return nil
+	}
+	singles := singlesOf(es, salt)
+	o.Emit(line, "ok "+dumpDerived(dh, es, singles), true)
+
+	en := enabledIdx(es)
+	if dh.Len() != len(en) {
+		o.Violate("%s: %d derived keys for %d ENABLED deriver keys", what, dh.Len(), len(en))
+		return dh
+	}
+	nprim := 0
+	for j, i := range en {
+		src := es[i]
+		de, err := dh.Entry(j)
+		if err != nil {
+			o.Violate("%s: Entry(%d) of the derived handle: %v", what, j, err)
+			continue
+		}
+		tag := fmt.Sprintf("%s: derived key %d (from entry %d, id %d, %s/%s)", what, j, i, src.id, src.spec.label(), vNames[src.spec.variant])
+		if de.KeyID() != src.id {
+			o.Violate("%s has id %d", tag, de.KeyID())
+		}
+		if de.KeyStatus() != keyset.Enabled {
+			o.Violate("%s has status %s", tag, statusCode(de.KeyStatus()))
+		}
+		if de.IsPrimary() != src.primary {
+			o.Violate("%s: primary=%v, deriver entry primary=%v", tag, de.IsPrimary(), src.primary)
+		}
+		if de.IsPrimary() {
+			nprim++
+		}
+		k := de.Key()
+		if !k.Parameters().Equal(src.dparams) || !src.dparams.Equal(k.Parameters()) {
+			o.Violate("%s: parameters differ from the deriver key's derived-key parameters", tag)
+		}
+		idr, has := k.IDRequirement()
+		if has != src.hasID || (has && idr != src.id) {
+			o.Violate("%s: id requirement (%d,%v), want (%d,%v)", tag, idr, has, src.id, src.hasID)
+		}
+		if pre, ok := outputPrefixOf(k); ok {
+			if !bytes.Equal(pre, wantPrefix(src.spec.variant, src.id)) {
+				o.Violate("%s: output prefix %x, want %x", tag, pre, wantPrefix(src.spec.variant, src.id))
+			}
+		} else if src.spec.variant != vR {
+			o.Violate("%s: key without OutputPrefix for a prefixed variant", tag)
+		}
+		if ds, err := protoserialization.SerializeKey(k); err == nil {
+			if ss, err := protoserialization.SerializeKey(src.dk); err == nil && ss.OutputPrefixType() != ds.OutputPrefixType() {
+				o.Violate("%s: serialized prefix type %v, deriver key's %v", tag, ds.OutputPrefixType(), ss.OutputPrefixType())
+			}
+		}
+		if singles[i] == nil || !singles[i].Equal(k) {
+			o.Violate("%s differs from the key the entry's own key deriver yields", tag)
+		}
+		kb := w.materialLine(src, salt, k, tag)
+		if kb != nil {
+			direct, err := src.spec.build(src.id, kb)
+			if err != nil {
+				o.Violate("%s: an ordinary key cannot be built from the derived bytes: %v", tag, err)
+			} else if !direct.Equal(k) || !k.Equal(direct) {
+				o.Violate("%s is not Equal to the ordinary key built from its bytes", tag)
+			}
+		}
+	}
+	if nprim != 1 {
+		o.Violate("%s: %d primaries in the derived handle", what, nprim)
+	}
+	if pe, err := dh.Primary(); err != nil {
+		o.Violate("%s: derived handle has no primary: %v", what, err)
+	} else {
+		for _, e := range es {
+			if e.primary && pe.KeyID() != e.id {
+				o.Violate("%s: derived primary id %d, deriver primary id %d", what, pe.KeyID(), e.id)
+			}
+		}
+	}
+	// determinism: same deriver, same salt (another slice) → Equal; a fresh deriver → Equal
+	dh2, err := kd.DeriveKeyset(append([]byte(nil), keep...))
+	if err != nil || !handleEqual(dh, dh2) {
+		o.Violate("%s: two DeriveKeyset calls with equal salts are not Equal (err=%v)", what, err)
+	}
+	if kd2, err := keyderivation.New(h); err != nil {
+		o.Violate("%s: second keyderivation.New failed: %v", what, err)
+	} else if dh3, err := kd2.DeriveKeyset(keep); err != nil || !handleEqual(dh, dh3) {
+		o.Violate("%s: a second deriver of the same keyset gives a different keyset (err=%v)", what, err)
+	}
+	return dh
+}
+
+// allDiffer: derivations under different salts (or PRF keys) share no key.
+func (w *world) allDiffer(a, b *keyset.Handle, what string) {
+	if a == nil || b == nil || a.Len() != b.Len() {
+		return
+	}
+	ka, kb := keysOf(a), keysOf(b)
+	for j := range ka {
+		x, _ := keyBytesOf(ka[j])
+		y, _ := keyBytesOf(kb[j])
+		if ka[j].Equal(kb[j]) || bytes.Equal(x, y) {
+			w.o.Violate("%s: derived key %d is the same", what, j)
+		}
+	}
+}
+
+// ---------- variations of the deriver keyset ----------
+
+// vary: the keyset with entry t's PRF key / PRF salt / PRF hash / PRF key length changed derives a
+// different key at t and the very same keys elsewhere.
+func (w *world) vary(es []ent, salt []byte, dh *keyset.Handle, what string) {
+	o, rng := w.o, w.rng
+	en := enabledIdx(es)
+	if dh == nil || dh.Len() != len(en) {
+		return
+	}
+	pos := rng.Intn(len(en))
+	t := en[pos]
+	ps := plansOf(es)
+	p := &ps[t]
+	p.prfKey = append([]byte(nil), p.prfKey...)
+	p.prfSalt = append([]byte(nil), p.prfSalt...)
+	var kind string
+	switch rng.Intn(5) {
+	case 0, 1:
+		kind = "prf-key-bit"
+		p.prfKey[rng.Intn(len(p.prfKey))] ^= 1 << uint(rng.Intn(8))
+	case 2:
+		kind = "prf-salt"
+		if len(p.prfSalt) == 0 || rng.Bool() {
+			p.prfSalt = append(p.prfSalt, byte(1+rng.Intn(255))) // not 0: HMAC pads its key (the HKDF salt) with zeros
+		} else {
+			p.prfSalt[rng.Intn(len(p.prfSalt))] ^= 1 << uint(rng.Intn(8))
+		}
+	case 3:
+		kind = "prf-hash"
+		p.prfHash = 6 - p.prfHash // SHA256 <-> SHA512
+	default:
+		kind = "prf-key-length"
+		if len(p.prfKey) > 32 && rng.Bool() {
+			p.prfKey = p.prfKey[:len(p.prfKey)-1]
+		} else {
+			p.prfKey = append(p.prfKey, 0)
+		}
+	}
+	h2, err := buildOpts(ps)
+	if err != nil {
+		panic(fmt.Sprintf("vary: %v", err))
+	}
+	kd2, err := keyderivation.New(h2)
+	if err != nil {
+		o.Violate("%s: keyderivation.New failed on the varied keyset (%s): %v", what, kind, err)
+		return
+	}
+	dh2, err := kd2.DeriveKeyset(salt)
+	if err != nil || dh2.Len() != dh.Len() {
+		o.Violate("%s: DeriveKeyset failed on the varied keyset (%s): %v", what, kind, err)
+		return
+	}
+	o.Count("vary/" + kind)
+	ka, kb := keysOf(dh), keysOf(dh2)
+	es2 := view(h2)
+	for j, i := range en {
+		if j == pos {
+			x, _ := keyBytesOf(ka[j])
+			y, _ := keyBytesOf(kb[j])
+			if ka[j].Equal(kb[j]) || bytes.Equal(x, y) {
+				o.Violate("%s: %s changed, derived key %d did not", what, kind, j)
+			}
+			w.materialLine(es2[i], salt, kb[j], what+" varied "+kind)
+		} else if !ka[j].Equal(kb[j]) {
+			// an entry sharing the varied entry's PRF key is a different entry: it must not move
+			o.Violate("%s: %s of entry %d changed, derived key %d (entry %d) changed too", what, kind, t, j, i)
+		}
+	}
+}
+
+// reread: the deriver keyset written and read back (binary / JSON cleartext) derives the same keyset.
+func (w *world) reread(h *keyset.Handle, es []ent, salt []byte, dh *keyset.Handle, what string) {
+	o := w.o
+	if dh == nil {
+		return
+	}
+	var buf bytes.Buffer
+	json := w.rng.Bool()
+	var err error
+	if json {
+		err = insecurecleartextkeyset.Write(h, keyset.NewJSONWriter(&buf))
+	} else {
+		err = insecurecleartextkeyset.Write(h, keyset.NewBinaryWriter(&buf))
+	}
+	if err != nil {
+		for _, e := range es {
+			if !serializable(e) {
+				o.Count("reread/not-serializable-parameters")
+				return
+			}
+		}
+		o.Violate("%s: writing the deriver keyset failed: %v", what, err)
+		return
+	}
+	var h2 *keyset.Handle
+	if json {
+		h2, err = insecurecleartextkeyset.Read(keyset.NewJSONReader(&buf))
+	} else {
+		h2, err = insecurecleartextkeyset.Read(keyset.NewBinaryReader(&buf))
+	}
+	if err != nil {
+		o.Violate("%s: reading the deriver keyset back failed: %v", what, err)
+		return
+	}
+	if !handleEqual(h, h2) {
+		d := ""
+		for i := 0; i < h.Len() && i < h2.Len(); i++ {
+			x, _ := h.Entry(i)
+			y, _ := h2.Entry(i)
+			if x.KeyID() != y.KeyID() || x.KeyStatus() != y.KeyStatus() || x.IsPrimary() != y.IsPrimary() || !x.Key().Equal(y.Key()) {
+				d += fmt.Sprintf(" [entry %d: id %d/%d status %s/%s primary %v/%v %s keyEqual=%v paramsEqual=%v]", i, x.KeyID(), y.KeyID(), statusCode(x.KeyStatus()), statusCode(y.KeyStatus()),
+					x.IsPrimary(), y.IsPrimary(), es[i].spec.label(), x.Key().Equal(y.Key()), x.Key().Parameters().Equal(y.Key().Parameters()))
+			}
+		}
+		o.Violate("%s: the deriver keyset read back is not Equal (%d/%d entries)%s", what, h.Len(), h2.Len(), d)
+	}
+	kd, err := keyderivation.New(h2)
+	if err != nil {
+		o.Violate("%s: keyderivation.New failed on the re-read keyset: %v", what, err)
+		return
+	}
+	dh2, err := kd.DeriveKeyset(salt)
+	if err != nil || !handleEqual(dh, dh2) {
+		o.Violate("%s: the re-read keyset derives a different keyset (err=%v)", what, err)
+		return
+	}
+	o.Emit("!V derive "+entriesTok(view(h2), naturalIDReq(view(h2))), "ok "+dumpDerived(dh2, view(h2), singlesOf(view(h2), salt)), true)
+	if json {
+		o.Count("reread/json")
+	} else {
+		o.Count("reread/binary")
+	}
+}
+
+func serializable(e ent) bool {
+	_, err := protoserialization.SerializeKey(e.dk)
+	return err == nil
+}
+
+// ---------- the main case ----------
+
+func posClass(es []ent) string {
+	for i, e := range es {
+		if e.primary {
+			switch {
+			case len(es) == 1:
+				return "only"
+			case i == 0:
+				return "first"
+			case i == len(es)-1:
+				return "last"
+			}
+			return "middle"
+		}
+	}
+	return "none"
+}
+
+func (w *world) build(ps []plan) (*keyset.Handle, string) {
+	method := "opts"
+	switch r := w.rng.Intn(100); {
+	case r < 55:
+	case r < 70:
+		method = "public-addkey"
+	case r < 85:
+		method = "templates"
+	default:
+		method = "parameters"
+	}
+	if method == "templates" || method == "parameters" {
+		// what the registry generates: standard parameters only
+		for _, p := range ps {
+			pp, err := mkDeriverParams(p)
+			if err != nil {
+				panic(err)
+			}
+			if _, err := protoserialization.SerializeParameters(pp); err != nil || !p.spec.std() {
+				method = "opts"
+				break
+			}
+		}
+	}
+	var h *keyset.Handle
+	var err error
+	switch method {
+	case "opts":
+		h, err = buildOpts(ps)
+	case "public-addkey":
+		h, err = buildPublic(ps)
+	case "templates":
+		h, err = w.buildTemplates(ps)
+	default:
+		h, err = buildParams(ps)
+	}
+	if err != nil {
+		panic(fmt.Sprintf("building a deriver keyset (%s): %v", method, err))
+	}
+	return h, method
+}
+
+func (w *world) count(es []ent, method string) {
+	o := w.o
+	o.Count("method/" + method)
+	o.Count(fmt.Sprintf("nkeys/%d", len(es)))
+	o.Count("primary-position/" + posClass(es))
+	o.Count(fmt.Sprintf("enabled-keys/%d", len(enabledIdx(es))))
+	for _, e := range es {
+		o.Count("type/" + e.spec.label())
+		o.Count("kind-variant/" + e.spec.kind + "/" + vNames[e.spec.variant])
+		o.Count("status/" + statusCode(e.status))
+		if !e.spec.std() {
+			o.Count("nonstandard-parameters/" + e.spec.kind)
+		}
+		switch e.id {
+		case 0:
+			o.Count("id/0")
+		case 0xFFFFFFFF:
+			o.Count("id/max")
+		}
+	}
+}
+
+func (w *world) mainCase() {
+	o, rng := w.o, w.rng
+	nk := rng.Pick(1, 1, 2, 2, 3, 3, 4, 5, 5)
+	ps := w.plans(nk)
+	h, method := w.build(ps)
+	es := view(h)
+	w.count(es, method)
+	what := fmt.Sprintf("%s keyset of %d", method, nk)
+	kd, err := keyderivation.New(h)
+	if err != nil {
+		o.Violate("%s: keyderivation.New failed on a well-formed deriver keyset: %v", what, err)
+		return
+	}
+	salts, classes := w.salts()
+	dhs := make([]*keyset.Handle, len(salts))
+	for i, s := range salts {
+		o.Count("salt/" + classes[i])
+		dhs[i] = w.derive(kd, h, es, s, fmt.Sprintf("%s, salt %s(%d)", what, classes[i], len(s)))
+	}
+	for i := range salts {
+		for j := i + 1; j < len(salts); j++ {
+			if dhs[i] == nil || dhs[j] == nil {
+				continue
+			}
+			if bytes.Equal(salts[i], salts[j]) { // nil and empty are the same salt
+				if !handleEqual(dhs[i], dhs[j]) {
+					o.Violate("%s: nil and empty salt derive different keysets", what)
+				}
+				o.Count("salt-pair/equal")
+			} else {
+				w.allDiffer(dhs[i], dhs[j], fmt.Sprintf("%s, salts %x… and %x…", what, salts[i][:min(4, len(salts[i]))], salts[j][:min(4, len(salts[j]))]))
+				o.Count("salt-pair/different")
+			}
+		}
+	}
+	u := rng.Intn(len(salts))
+	w.vary(es, salts[u], dhs[u], what)
+	if rng.Chance(50) {
+		w.reread(h, es, salts[u], dhs[u], what)
+	}
+	// usability
+	if dh := dhs[u]; dh != nil && dh.Len() == len(enabledIdx(es)) {
+		en := enabledIdx(es)
+		ks := keysOf(dh)
+		var specs []dspec
+		var ids []uint32
+		prim := 0
+		for j, i := range en {
+			specs = append(specs, es[i].spec)
+			ids = append(ids, es[i].id)
+			if es[i].primary {
+				prim = j
+			}
+			kb, ok := keyBytesOf(ks[j])
+			if !ok {
+				continue
+			}
+			direct, err := es[i].spec.build(es[i].id, kb)
+			if err != nil {
+				continue
+			}
+			w.useKey(es[i].spec, es[i].id, ks[j], direct, fmt.Sprintf("%s, derived %s/%s key id %d", what, es[i].spec.label(), vNames[es[i].spec.variant], es[i].id))
+		}
+		w.useHandle(dh, specs, ids, prim, what)
+	}
+}
+
+// ---------- the factory under a doctored configuration ----------
+
+const (
+	pSame        = iota // the entry's real key deriver
+	pLegacy             // the real deriver offered as a legacy (non-full) primitive: the factory stamps id and prefix
+	pLegacyTwist        // a legacy primitive whose keys carry a wrong id / variant: the factory's stamp wins
+	pForeign            // derived key with an id requirement other than the entry's id → AddKeyWithOpts refuses
+	pStrip              // derived key without id requirement under a prefixed deriver key → accepted
+	pAddID              // derived key requiring the entry's id under a deriver key without requirement → accepted
+	pAddForeign         // … requiring another id → refused
+)
+
+var planNames = []string{"same", "legacy", "legacy-twisted", "foreign-id", "stripped-id", "added-id", "added-foreign-id"}
+
+// twist rebuilds the real derived key with another variant / id requirement.
+type twist struct {
+	raw  deriver
+	spec dspec
+	id   uint32
+}
+
+func (t *twist) DeriveKey(salt []byte) (key.Key, error) {
+	k, err := t.raw.DeriveKey(salt)
+	if err != nil {
+		return nil, err
+	}
+	kb, ok := keyBytesOf(k)
+	if !ok {
+		return nil, fmt.Errorf("twist: key type %T", k)
+	}
+	return t.spec.build(t.id, kb)
+}
+
+type probeCfg struct {
+	es    []ent
+	plans []int
+	other []uint32 // the foreign id per entry
+	asked int
+}
+
+func (c *probeCfg) index(k key.Key) int {
+	for i, e := range c.es {
+		if key.Key(e.dk) == k {
+			return i
+		}
+	}
+	for i, e := range c.es {
+		if e.dk.Equal(k) {
+			return i
+		}
+	}
+	return -1
+}
+
+// full is the full primitive the plan stands for (nil for the legacy plans).
+func (c *probeCfg) prim(i int) (d deriver, legacy bool, err error) {
+	e := c.es[i]
+	raw, err := prfbasedkeyderivation.NewKeyDeriver(e.dk, itok)
+	if err != nil {
+		return nil, false, err
+	}
+	s := e.spec
+	switch c.plans[i] {
+	case pSame:
+		return raw, false, nil
+	case pLegacy:
+		return raw, true, nil
+	case pLegacyTwist:
+		vs := variantsOf(s.kind)
+		s.variant = vs[int(c.other[i])%len(vs)]
+		return &twist{raw, s, c.other[i]}, true, nil
+	case pForeign:
+		return &twist{raw, s, c.other[i]}, false, nil
+	case pStrip:
+		s.variant = vR
+		return &twist{raw, s, 0}, false, nil
+	case pAddID:
+		s.variant = variantsOf(s.kind)[0]
+		return &twist{raw, s, e.id}, false, nil
+	default:
+		s.variant = variantsOf(s.kind)[0]
+		return &twist{raw, s, c.other[i]}, false, nil
+	}
+}
+
+func (c *probeCfg) PrimitiveFromKey(k key.Key, _ internalapi.Token) (any, error) {
+	c.asked++
+	i := c.index(k)
+	if i < 0 {
+		return nil, fmt.Errorf("probeCfg: unknown key")
+	}
+	d, legacy, err := c.prim(i)
+	if err != nil {
+		return nil, err
+	}
+	if legacy {
+		return legacyprimitive.New(d), nil
+	}
+	return d, nil
+}
+
+func (w *world) probeCase() {
+	o, rng := w.o, w.rng
+	nk := rng.Pick(1, 2, 2, 3, 3, 4, 5)
+	ps := w.plans(nk)
+	h, err := buildOpts(ps)
+	if err != nil {
+		panic(err)
+	}
+	es := view(h)
+	cfg := &probeCfg{es: es, plans: make([]int, nk), other: make([]uint32, nk)}
+	idReq := naturalIDReq(es)
+	wantErr := false
+	for i, e := range es {
+		other := rng.KeyID()
+		if rng.Chance(40) {
+			other = e.id ^ (1 << uint(rng.Intn(32)))
+		}
+		if other == e.id {
+			other++
+		}
+		cfg.other[i] = other
+		pl := pSame
+		multi := len(variantsOf(e.spec.kind)) > 1
+		if rng.Chance(65) {
+			switch {
+			case e.hasID:
+				pl = rng.Pick(pLegacy, pLegacyTwist, pForeign, pStrip, pStrip)
+			case multi:
+				pl = rng.Pick(pLegacy, pLegacyTwist, pAddID, pAddID, pAddForeign)
+			default:
+				pl = pLegacy
+			}
+		}
+		if (pl == pLegacy || pl == pLegacyTwist) && !serializable(e) {
+			pl = pSame
+		}
+		cfg.plans[i] = pl
+		if e.status != keyset.Enabled {
+			continue
+		}
+		o.Count("config/" + planNames[pl])
+		switch pl {
+		case pForeign, pAddForeign:
+			idReq[i] = fmt.Sprint(other)
+			wantErr = true
+		case pStrip:
+			idReq[i] = "-"
+		case pAddID:
+			idReq[i] = fmt.Sprint(e.id)
+		}
+	}
+	what := fmt.Sprintf("doctored configuration, keyset of %d", nk)
+	kd, err := keyderivation.NewWithConfig(h, cfg)
+	if err != nil {
+		o.Violate("%s: NewWithConfig failed: %v", what, err)
+		return
+	}
+	en := enabledIdx(es)
+	if cfg.asked != len(en) {
+		o.Violate("%s: the factory asked for %d primitives, the keyset has %d ENABLED keys", what, cfg.asked, len(en))
+	}
+	salt := rng.Bytes(rng.Pick(0, 5, 32, 1024))
+	dh, err := kd.DeriveKeyset(salt)
+	line := "!V derive " + entriesTok(es, idReq)
+	if err != nil {
+		o.Emit(line, "err", true)
+		if !wantErr {
+			o.Violate("%s: DeriveKeyset failed although every derived key fits its id: %v", what, err)
+		}
+		if _, err := kd.DeriveKeyset(salt); err == nil {
+			o.Violate("%s: DeriveKeyset failed once and then succeeded", what)
+		}
+		o.Count("config/result-err")
+		return
+	}
+	// expected keys: what each plan's primitive yields; legacy ones are re-stamped to the natural key
+	singles := make([]key.Key, nk)
+	natural := singlesOf(es, salt)
+	for _, i := range en {
+		d, legacy, err := cfg.prim(i)
+		if err != nil {
+			continue
+		}
+		if legacy {
+			singles[i] = natural[i]
+		} else if k, err := d.DeriveKey(salt); err == nil {
+			singles[i] = k
+		}
+	}
+	o.Emit(line, "ok "+dumpDerived(dh, es, singles), true)
+	o.Count("config/result-ok")
+	if wantErr {
+		o.Violate("%s: DeriveKeyset accepted a derived key whose id requirement differs from the key id", what)
+	}
+	if dh.Len() != len(en) {
+		o.Violate("%s: %d derived keys for %d ENABLED deriver keys", what, dh.Len(), len(en))
+		return
+	}
+	for j, i := range en {
+		de, _ := dh.Entry(j)
+		if de.KeyID() != es[i].id || de.KeyStatus() != keyset.Enabled || de.IsPrimary() != es[i].primary {
+			o.Violate("%s: derived entry %d is (%d,%s,%v), deriver entry (%d,E,%v)", what, j, de.KeyID(), statusCode(de.KeyStatus()), de.IsPrimary(), es[i].id, es[i].primary)
+		}
+		if singles[i] == nil || !singles[i].Equal(de.Key()) {
+			o.Violate("%s: derived entry %d (plan %s, %s/%s) is not the key its primitive yields: got %+v want %+v", what, j, planNames[cfg.plans[i]], es[i].spec.label(), vNames[es[i].spec.variant], dbg(de.Key()), dbg(singles[i]))
+		}
+		if pl := cfg.plans[i]; pl == pLegacy || pl == pLegacyTwist {
+			// the factory's wrapper: id requirement = key id, prefix type = the deriver key's
+			if pre, ok := outputPrefixOf(de.Key()); ok && !bytes.Equal(pre, wantPrefix(es[i].spec.variant, es[i].id)) {
+				o.Violate("%s: legacy-wrapped derived key %d has prefix %x, want %x", what, j, pre, wantPrefix(es[i].spec.variant, es[i].id))
+			}
+		}
+		w.materialLine(es[i], salt, de.Key(), what)
+	}
+	if dh2, err := kd.DeriveKeyset(salt); err != nil || !handleEqual(dh, dh2) {
+		o.Violate("%s: two derivations differ (err=%v)", what, err)
+	}
+}
+
+// ---------- outside the domain: what must be refused ----------
+
+var underivable = []struct {
+	name string
+	t    func() *tinkpb.KeyTemplate
+}{
+	{"chacha20poly1305", aead.ChaCha20Poly1305KeyTemplate}, {"aes-ctr-hmac", aead.AES128CTRHMACSHA256KeyTemplate},
+	{"aes-gcm-siv", aead.AES128GCMSIVKeyTemplate}, {"x-aes-gcm", aead.XAES256GCM192BitNonceKeyTemplate},
+	{"aes-cmac", mac.AESCMACTag128KeyTemplate}, {"aes-cmac-prf", prf.AESCMACPRFKeyTemplate},
+	{"ecdsa-p256", signature.ECDSAP256KeyTemplate}, {"aes-ctr-hmac-streaming", streamingaead.AES128CTRHMACSHA256Segment4KBKeyTemplate},
+}
+
+func (w *world) negativeCase() {
+	o, rng := w.o, w.rng
+	good := plan{spec: dspec{kind: "aesgcm", ksz: 16, iv: 12, tag: 16, variant: vT}, prfHash: 2, prfKey: rng.Bytes(32), id: 7, status: keyset.Enabled, primary: true}
+	switch rng.Intn(6) {
+	case 0: // a derived key type without key deriver
+		u := underivable[rng.Intn(len(underivable))]
+		o.Count("refused/underivable-type/" + u.name)
+		if _, err := keyderivation.CreatePRFBasedKeyTemplate(prf.HKDFSHA256PRFKeyTemplate(), u.t()); err == nil {
+			o.Violate("CreatePRFBasedKeyTemplate accepted the underivable key type %s", u.name)
+		}
+		dp, err := protoserialization.ParseParameters(u.t())
+		if err != nil {
+			panic(err)
+		}
+		pk, err := mkPRFKey(2, rng.Bytes(32), nil)
+		if err != nil {
+			panic(err)
+		}
+		pp, err := prfbasedkeyderivation.NewParameters(pk.Parameters(), dp)
+		if err != nil {
+			return
+		}
+		id := uint32(0)
+		if pp.HasIDRequirement() {
+			id = 5
+		}
+		dk, err := prfbasedkeyderivation.NewKey(pp, pk, id)
+		if err != nil {
+			return
+		}
+		h, err := hlib.HandleOf(dk)
+		if err != nil {
+			return
+		}
+		kd, err := keyderivation.New(h)
+		if err != nil {
+			return
+		}
+		if msg := hlib.Recover(func() {
+			if dh, err := kd.DeriveKeyset([]byte("salt")); err == nil {
+				o.Violate("a deriver key for the underivable type %s derived a keyset of %d keys", u.name, dh.Len())
+			}
+		}); msg != "" {
+			o.Violate("DeriveKeyset panicked for the underivable type %s: %s", u.name, msg)
+		}
+	case 1: // PRF keys the streaming PRF refuses
+		p := good
+		if rng.Bool() {
+			p.prfHash = rng.Pick(0, 1, 3)
+			o.Count("refused/prf-hash-" + hashNames[p.prfHash])
+		} else {
+			p.prfKey = rng.Bytes(16 + rng.Intn(16))
+			o.Count("refused/prf-key-shorter-than-32")
+		}
+		h, err := buildOpts([]plan{p})
+		if err != nil {
+			return
+		}
+		if _, err := keyderivation.New(h); err == nil {
+			o.Violate("keyderivation.New accepted a deriver key with PRF hash %s and a %d-byte PRF key", hashNames[p.prfHash], len(p.prfKey))
+		}
+	case 2: // PRF key types other than HKDF
+		dp, _ := good.spec.params()
+		var pk key.Key
+		if rng.Bool() {
+			ps, err := hmacprf.NewParameters(32, hmacprf.SHA256)
+			if err != nil {
+				panic(err)
+			}
+			pk, err = hmacprf.NewKey(hlib.Secret(rng.Bytes(32)), ps)
+			if err != nil {
+				panic(err)
+			}
+			o.Count("refused/prf-type-hmac")
+		} else {
+			var err error
+			pk, err = aescmacprf.NewKey(hlib.Secret(rng.Bytes(32)))
+			if err != nil {
+				panic(err)
+			}
+			o.Count("refused/prf-type-aes-cmac")
+		}
+		pp, err := prfbasedkeyderivation.NewParameters(pk.Parameters(), dp)
+		if err != nil {
+			return
+		}
+		dk, err := prfbasedkeyderivation.NewKey(pp, pk, 7)
+		if err != nil {
+			return
+		}
+		h, err := hlib.HandleOf(dk)
+		if err != nil {
+			return
+		}
+		if _, err := keyderivation.New(h); err == nil {
+			o.Violate("keyderivation.New accepted a deriver key with a %T PRF key", pk)
+		}
+	case 3: // not a deriver keyset / no keyset
+		o.Count("refused/not-a-deriver-keyset")
+		h, err := keyset.NewHandle(aead.AES128GCMKeyTemplate())
+		if err != nil {
+			panic(err)
+		}
+		if _, err := keyderivation.New(h); err == nil {
+			o.Violate("keyderivation.New accepted an AES-GCM keyset")
+		}
+		if msg := hlib.Recover(func() {
+			if _, err := keyderivation.New(nil); err == nil {
+				o.Violate("keyderivation.New accepted a nil handle")
+			}
+		}); msg != "" {
+			o.Violate("keyderivation.New(nil) panicked: %s", msg)
+		}
+	default: // the end of the HKDF stream: 255 blocks can be read, one byte more cannot
+		hash := rng.Pick(2, 4)
+		max := 255 * hashLens[hash]
+		p := good
+		p.prfHash = hash
+		p.prfKey = rng.Bytes(rng.Pick(32, 64))
+		p.prfSalt = rng.Bytes(rng.Pick(0, 16))
+		p.spec = dspec{kind: "hmac", hash: rng.Intn(5), ksz: max, tag: 16, variant: rng.Pick(vT, vR)}
+		over := rng.Bool()
+		if over {
+			p.spec.ksz = max + 1 + rng.Intn(3)
+		}
+		h, err := buildOpts([]plan{p})
+		if err != nil {
+			panic(err)
+		}
+		kd, err := keyderivation.New(h)
+		if err != nil {
+			o.Violate("keyderivation.New failed for an HMAC key of %d bytes: %v", p.spec.ksz, err)
+			return
+		}
+		salt := rng.Bytes(rng.Pick(0, 7, 100))
+		if over {
+			o.Count("hkdf-limit/beyond-255-blocks-" + hashNames[hash])
+			if _, err := kd.DeriveKeyset(salt); err == nil {
+				o.Violate("DeriveKeyset produced a %d-byte key from HKDF-%s (limit %d)", p.spec.ksz, hashNames[hash], max)
+			}
+		} else {
+			o.Count("hkdf-limit/exactly-255-blocks-" + hashNames[hash])
+			w.derive(kd, h, view(h), salt, "HMAC key of 255 HKDF blocks")
+		}
+	}
+}
 
 func main() {
-	o := hlib.Open("c17")
+	o := hlib.Open("C17")
 	defer o.Close()
-	o.Emit("P enc 1:v128,3:b48656c6c6f", "0880011a0548656c6c6f", true)
-	o.Emit("V derive 5:E:0:5:1;7:E:1:-:3", "ok 5:E:0:1;7:E:1:3", true)
+	seed := *hlib.FlagSeed
+	hlib.InstallTape(seed) // tink's own randomness (generated PRF keys, random key ids, nonces) is a function of the seed
+	w := &world{o: o, rng: hlib.NewRng(seed, "c17")}
+	n := hlib.N(1500, 15000)
+	for c := 0; c < n; c++ {
+		o.Case()
+		switch r := w.rng.Intn(100); {
+		case r < 78:
+			w.mainCase()
+		case r < 94:
+			w.probeCase()
+		default:
+			w.negativeCase()
+		}
+	}
+}
+
+func dbg(k key.Key) string {
+	if k == nil {
+		return "nil"
+	}
+	s, _ := specOf(k.Parameters())
+	kb, _ := keyBytesOf(k)
+	id, has := k.IDRequirement()
+	return fmt.Sprintf("%+v id=%d,%v key=%x", s, id, has, kb[:4])
 }
